@@ -353,3 +353,15 @@ pub fn hex(b: &[u8]) -> String {
 pub fn unhex(s: &str) -> Vec<u8> {
     (0..s.len() / 2).map(|i| u8::from_str_radix(&s[2 * i..2 * i + 2], 16).unwrap()).collect()
 }
+
+/// The running binary, for checks that start a child process of themselves. If the file was replaced while this
+/// process runs (a rebuild; /proc/self/exe then names a deleted file) the freshly built binary of the same name
+/// under the harness's target directory is used.
+pub fn self_exe() -> std::path::PathBuf {
+    let exe = std::env::current_exe().expect("exe");
+    if exe.exists() {
+        return exe;
+    }
+    let name = exe.file_name().map(|n| n.to_string_lossy().replace(" (deleted)", "")).unwrap_or_else(|| "netsim".into());
+    std::path::PathBuf::from(format!("{VERIF_ROOT}/target/release/{name}"))
+}
